@@ -336,6 +336,9 @@ DECLS_CPP = [
     ("ptrmem", "struct Z { int f; int g() { return f; } };\nint pm(Z *z, Z &r)\n{\n    int Z::*p = &Z::f;\n    int (Z::*q)() = &Z::g;\n    return z->*p + r.*p + (z->*q)() + (r.*q)();\n}\n"),
     ("ctorinit", "struct B { int a; int b; B(int x, int y) : a(x), b(y) {} B() : B(0, 0) {} };\nB b1(1, 2);\nB b2{ 1, 2 };\nB b3 = B(3, 4);\n"),
     ("noexcept", "struct M { M() noexcept = default; M(const M &) = delete; void f() const noexcept override; virtual void g() = 0; };\n".replace(" override", "")),
+    ("functor", "struct D { D &operator()(const char *s, int v) { return *this; } D &operator()() { return *this; } D &add() { return *this; } };\n"
+                "void fc(D *desc)\n{\n    desc->add()(\"a\", 1)(\"b\", 2)();\n    desc->add() (\"c\", 3) ();\n}\n"),
+    ("convop", "struct CV { int x; operator bool() const { return x != 0; } operator const char *() const { return 0; } explicit operator int() const { return x; } };\n"),
     ("rawstr", "const char *rs = R\"(raw \"text\" \\n)\";\nconst char *rs2 = R\"xy(a)b)xy\";\nconst wchar_t *ws = L\"wide\";\nconst auto *u8s = u8\"utf\";\n"),
 ]
 
